@@ -113,6 +113,10 @@ BENIGN = [
      "        self.bond_descriptors = self.bond_descriptors[:self_bond_idx] + self.bond_descriptors[self_bond_idx + 1 :]\n", []),
     ("choice_skipped_for_single_option", S + "core.py", "    try:\n        idx = rng.choice(compatible_idx, p=weights)\n",
      "    if len(compatible_idx) == 1:\n        return compatible_idx[0]\n    try:\n        idx = rng.choice(compatible_idx, p=weights)\n", []),
+    ("choice_on_count", S + "core.py", "        idx = rng.choice(compatible_idx, p=weights)\n",
+     "        idx = compatible_idx[rng.choice(len(compatible_idx), p=weights)]\n", []),
+    ("mass_from_public_weight", S + "stochastic.py", "            starting_mol_weight = rdDescriptors.HeavyAtomMolWt(my_mol.mol)\n",
+     "            starting_mol_weight = rdDescriptors.HeavyAtomMolWt(my_mol._mol)\n", []),
     ("draw_after_start_mass", S + "stochastic.py",
      "            starting_mol_weight = rdDescriptors.HeavyAtomMolWt(my_mol.mol)\n            target_mol_weight = self.distribution.draw_mw(rng)\n",
      "            target_mol_weight = self.distribution.draw_mw(rng)\n            starting_mol_weight = rdDescriptors.HeavyAtomMolWt(my_mol.mol)\n", []),
